@@ -12,10 +12,11 @@ CHECKS = {
     "C07": ("SeqTrace contract (LivesNIterations, SwitchRestoresFullCapacity, OtherRegionsUntouched, RegionsCoverNoMoreThanBlock)", "9 C07"),
     "C12": ("SeqTrace contract (MoveCtorNoUpstreamTraffic, AssignReleasesOldOnce, MovedFromIsHarmless, MovedFromReleasesNothing) with a move at every position", "9 C12"),
     "C15": ("SeqTrace contract (ReportIffNonZero, ReportAmountIsNet, MovedFromSilent, ReportOnlyAtDestroy)", "9 C15"),
-    "C18": ("SeqTrace contract (AboveMaxNeverSucceeds, StackCapacityMovesExactly, pool counter guards)", "9 C18"),
+    "C18": ("SeqTrace contract (AboveMaxNeverSucceeds, StackCapacityMovesExactly, pool counter guards) and TablesTrace contract (MinBlockSizeSuffices on the complete table node size x count per pool type, MinBlockSizeCapacityExact for stacks/arenas); SmallLayout design model", "9 C18"),
     "C08": ("SeqTrace contract (TryDeallocFalseForForeign, FalseChangesNothing, TryDeallocTrueForOwn: own, sibling and block-adjacent foreign pointers) and ForwardTrace contract (ReleaseSameLeaf, ReleaseSameShape, ReleasedToServingPool in fallback nests)", "9 C08"),
     "C09": ("ForwardTrace contract (OneLeafRequestPerRequest, LeafBytesAtLeast, LeafAlignAtLeast, ReleaseSameLeaf, ReleaseSameShape, ReleaseOnce, TrackerSeesEachSuccessOnce) over a catalogue of wrapper compositions on instrumented leaves", "9 C09"),
     "C13": ("LockTrace contract (EnterHoldsMutex, AtMostOneInside, MutexIsExclusive, UnlockByHolder, StatelessTakesNoLock, DisjointUnderConcurrency, StatelessNetExact) on single-threaded passes over every forwarding member and on multi-threaded stress; Storage design model for the interleavings", "9 C13"),
+    "C19": ("TablesTrace contract (RoundUpIsLeastMultiple, AlignOffsetIsLeast, IsAlignedIffOffsetZero, AlignmentForIsLargestPow2Capped, Ilog2IsFloor, Ilog2CeilIsCeil, BucketHoldsSize, Log2BucketLessThanTwice, IdentityBucketExact) on complete result tables of the real functions (small domain complete, 64-bit boundary classes as limbs); Arith design model proves transcription = definition on a complete 13-bit machine", "9 C19"),
 }
 
 NOT_YET = {
@@ -24,7 +25,6 @@ NOT_YET = {
     "C14": "check under construction in this session (temp driver, scheduling hook, TempStackList model)",
     "C16": "check under construction in this session (bad-call mode + ReportContract)",
     "C17": "check under construction in this session (lowlevel driver + FenceContract)",
-    "C19": "check under construction in this session (tables driver + Arith model)",
     "C20": "check under construction in this session (construct driver + Construct model)",
 }
 
